@@ -206,5 +206,9 @@ lg = jnp.concatenate(tuple(jnp.where(m, d.logits, -jnp.inf) for d, m in zip(self
     # log-probability is the sum over independent components, so the sample must draw every component with its own key split.
     from .C15 import check_product_law
     check_product_law(s, "C16.6", methods=("sample", "log_prob", "mode"))
+    # C16.3b every policy / action-head class can be instantiated (its constructor assigns every declared field)
+    from .util import fields_initialised
+    fields_initialised(s, "C16.3", [c for m_ in sorted(P.modules.values(), key=lambda m__: m__.name) if m_.name.startswith("lerax.policy") for c in m_.classes.values()],
+                       necessary_for="masked actions are never chosen end-to-end through actor-critic policies for discrete, multi-discrete and multi-binary actions (the head must exist)")
     for r_, n_ in (("C16.1", 9), ("C16.2", 10), ("C16.3", 4), ("C16.4", 6), ("C16.5", 16), ("C16.6", 4)):
         s.floor(r_, n_)
